@@ -77,6 +77,27 @@ for shp in shapes:
     if err > 1e-5:
       add("Preconditioner._precondition_block(compressed)", [list(shp), r], f"differs from the dense matrices by {err}")
 
+# flagged has_zeros: the gradient is returned unchanged whatever the packed contents are (finite or not)
+for shp in [(6,), (6, 5)]:
+  for poison in (None, np.inf, np.nan, 3e38):
+    cases += 1
+    g = jnp.asarray(rng.randn(*shp))
+    pre = ds.Preconditioner(g, 0, 4096, False, ds.PreconditionerType.ALL, 1)
+    packed = []
+    for dim in shp:
+      V = rng.randn(dim, 1)
+      if poison is not None:
+        V[dim // 2, 0] = poison
+      packed.append(ds._fd_low_rank_pack(jnp.asarray(V), jnp.zeros((1,)), jnp.asarray(rng.rand(1) + 0.5), 0.7, 0.0, True, 1))
+    try:
+      got = np.asarray(pre.preconditioned_grad(g, packed))
+    except Exception as ex:  # pylint: disable=broad-except
+      add("Preconditioner._precondition_block", [list(shp), "flagged", str(poison)], f"raised {type(ex).__name__}: {ex}")
+      continue
+    if not np.array_equal(got, np.asarray(g)):
+      add("Preconditioner._precondition_block(flagged has_zeros)", [list(shp), f"eigenvector entry {poison}"],
+          "a preconditioner flagged has_zeros did not leave the gradient unchanged")
+
 # _low_rank_root denotes the root with averaged complement
 for d, r, pad in [(7, 2, None), (7, -2, None), (8, 2, 6), (8, -2, 6), (9, 3, 9)]:
   cases += 1
